@@ -98,7 +98,28 @@ def story_to_send_children(story, i, j):
 
 
 def message_element(op):
-    """The message element (child of <mos>) for an op."""
+    """The message element (child of <mos>) for an op, after any mangling (non-schema-shaped relatives)."""
+    el = _message_element(op)
+    m = op.get('mangle')
+    if m:
+        el = [el[0], el[1], el[2], el[3], list(el[4])]
+        tag = m['tag']
+        if m['how'] == 'drop_all':
+            el[4] = [c for c in el[4] if c[0] != tag]
+        elif m['how'] == 'drop':
+            for i, c in enumerate(el[4]):
+                if c[0] == tag:
+                    del el[4][i]
+                    break
+        elif m['how'] == 'dup':
+            for i, c in enumerate(el[4]):
+                if c[0] == tag:
+                    el[4].insert(i, c)
+                    break
+    return el
+
+
+def _message_element(op):
     t = op['type']
     if t == 'Raw':           # malformed relatives: the element is given verbatim
         return op['element']
